@@ -225,6 +225,11 @@ impl Write for CountSink {
 /// again" switch.
 pub static mut FAULTS_FIRED: u32 = 0;
 pub static mut FAULTS_HEALED: bool = false;
+/// operations (reads and seeks) issued so far to any FaultSource
+pub static mut SRC_OPS: u32 = 0;
+pub fn src_ops() -> u32 {
+    unsafe { SRC_OPS }
+}
 pub fn faults_fired() -> u32 {
     unsafe { FAULTS_FIRED }
 }
@@ -235,6 +240,7 @@ pub fn faults_reset() {
     unsafe {
         FAULTS_FIRED = 0;
         FAULTS_HEALED = false;
+        SRC_OPS = 0;
     }
 }
 
@@ -437,48 +443,79 @@ impl<const N: usize> Seek for CrashFile<N> {
 pub struct FaultSource<'a> {
     pub s: MemSource<'a>,
     pub op: u32,
+    /// operations with index below this concrete number never fail (and are not compared with
+    /// the symbolic `fail_at`, which keeps them straight-line for the solver)
+    pub armed_after: u32,
     pub fail_at: u32,
     pub fired: bool,
     pub short: bool,
+    /// as FaultFile::short_policy
+    pub short_policy: u8,
+    /// concrete alternative to `fail_at`: the seek with this index (counting seeks only) fails
+    pub fail_seek_no: u32,
+    pub n_seeks: u32,
 }
 impl<'a> FaultSource<'a> {
     pub fn new(data: &'a [u8], fail_at: u32, short: bool) -> Self {
         Self {
             s: MemSource::new(data),
             op: 0,
+            armed_after: 0,
             fail_at,
             fired: false,
             short,
+            short_policy: 0,
+            fail_seek_no: u32::MAX,
+            n_seeks: 0,
         }
     }
     fn tick(&mut self) -> io::Result<()> {
         let n = self.op;
         self.op += 1;
-        if n == self.fail_at {
+        unsafe { SRC_OPS += 1 };
+        if n < self.armed_after {
+            return Ok(());
+        }
+        // sticky: once the source has failed every later operation fails too (a broken device);
+        // what a reader gets from a source after an error is not part of any claim
+        if n >= self.fail_at {
             self.fired = true;
+            unsafe { FAULTS_FIRED += 1 };
             return Err(io::Error::from(io::ErrorKind::Other));
         }
         Ok(())
+    }
+    fn chunk(&self, want: usize) -> usize {
+        if !self.short || want <= 1 {
+            return want;
+        }
+        match self.short_policy {
+            1 => 1,
+            2 => want - 1,
+            3 => (want + 1) / 2,
+            _ => any_chunk(want),
+        }
     }
 }
 impl Read for FaultSource<'_> {
     fn read(&mut self, out: &mut [u8]) -> io::Result<usize> {
         self.tick()?;
-        if self.short && out.len() > 1 {
-            let c = any_chunk(out.len());
-            self.s.read(&mut out[..c])
-        } else {
-            self.s.read(out)
-        }
+        let c = self.chunk(out.len());
+        self.s.read(&mut out[..c])
     }
     /// std's contract for `read_exact`, without the retry on `Interrupted` (see
     /// `FaultFile::write_all`).
     fn read_exact(&mut self, out: &mut [u8]) -> io::Result<()> {
         let mut off = 0;
         while off < out.len() {
-            self.tick()?;
             let want = out.len() - off;
-            let c0 = if self.short && want > 1 { any_chunk(want) } else { want };
+            if let Err(e) = self.tick() {
+                // advance as the successful path would, so that the position is the same constant
+                // on both paths once CBMC merges them (nothing is read from a failed source again)
+                self.s.pos += want;
+                return Err(e);
+            }
+            let c0 = self.chunk(want);
             let avail = self.s.len - if self.s.pos < self.s.len { self.s.pos } else { self.s.len };
             let c = if c0 < avail { c0 } else { avail };
             if c == 0 {
@@ -492,6 +529,13 @@ impl Read for FaultSource<'_> {
 }
 impl Seek for FaultSource<'_> {
     fn seek(&mut self, to: SeekFrom) -> io::Result<u64> {
+        let k = self.n_seeks;
+        self.n_seeks += 1;
+        if k == self.fail_seek_no {
+            self.fired = true;
+            unsafe { FAULTS_FIRED += 1 };
+            return Err(io::Error::from(io::ErrorKind::Other));
+        }
         self.tick()?;
         self.s.seek(to)
     }
